@@ -86,6 +86,8 @@ iwrc iwtp_schedule(struct iwtp *tp, iwtp_task_f fn, void *arg) {
     int rci = pthread_create(&th, 0, _worker_fn, tp);
     if (rci) {
       iwlog_ecode_error2(iwrc_set_errno(IW_ERROR_THREADING_ERRNO, rci), "iwtp | Failed to create overflow thread");
+    } else {
+      iwulist_push(&tp->threads, &th);
     }
   }
 
